@@ -13,6 +13,7 @@ PROPS = {
         dict(name='evaltable', n=n(0, 0), view='result'),
         dict(name='eval', n=n(40000, 1500000), view='result'),
         dict(name='evalill', n=n(30000, 1000000), view='result'),
+        dict(name='spine:eval', n=n(1500, 40000), view='result'),
         dict(name='script', n=n(20000, 500000), view='script_exec', oracle='none'),
         dict(name='cmp', n=n(40000, 1500000), oracle='none'),
         dict(name='num', n=n(40000, 1500000), oracle='none'),
@@ -29,6 +30,7 @@ PROPS = {
         dict(name='evaltable', n=n(0, 0), view='full'),
         dict(name='eval', n=n(40000, 1500000), view='full'),
         dict(name='evalill', n=n(30000, 1000000), view='full'),
+        dict(name='spine:eval', n=n(1500, 40000), view='full'),
     ],
     rule='same trees as C03, executed through a recording Environment; the compared line is result + the sequence of variable()/call() events with argument values; '
          'non-trivial = tree has an operator/call/array node',
@@ -38,6 +40,7 @@ PROPS = {
     modules=['SlacProps.C12', 'SlacProps.C12Text'],
     streams=[dict(name='json', n=n(60000, 2000000), oracle='none', laws=['json_same']),
              dict(name='deep:json', n=n(1000, 50000), oracle='none', laws=['json_same']),
+             dict(name='spine:json', n=n(600, 20000), oracle='none', laws=['json_same']),
              dict(name='vdeep:json', n=n(400, 20000), oracle='none', laws=['json_same'])],
     rule='json: source-expressible, optimizer-shaped and arbitrary ill-formed trees (depth<=3) with literals from the boundary pool '
          '(random bit patterns, subnormals, -0, 2^53+1, 1e300, NaN, infinities) and Unicode string pools; the canonical JSON value is compared with the model, '
@@ -79,6 +82,7 @@ PROPS = {
     streams=[
         dict(name='opt', n=n(40000, 1500000), view='opt_c05', oracle='none', laws=['c05']),
         dict(name='optill', n=n(20000, 500000), view='opt_c05', oracle='none', laws=['c05']),
+        dict(name='spine:opt', n=n(1500, 40000), view='opt_c05', oracle='none', laws=['c05'], case_timeout=20.0),
         dict(name='script', n=n(20000, 500000), view='script_opt', oracle='none', laws=['script_c05']),
     ],
     rule='opt/optill: random trees (depth<=4) mixing foldable all-literal sub-trees, variables in several spellings, if_then calls with 2-4 arguments, pure and impure functions of all arity kinds, folds that fail midway; '
@@ -91,6 +95,7 @@ PROPS = {
     streams=[
         dict(name='opt', n=n(40000, 1500000), view='opt_c06', oracle='none', laws=['c06'], case_timeout=20.0),
         dict(name='optill', n=n(20000, 500000), view='opt_c06', oracle='none', laws=['c06'], case_timeout=20.0),
+        dict(name='spine:opt', n=n(1500, 40000), view='opt_c06', oracle='none', laws=['c06'], case_timeout=20.0),
     ],
     rule='same trees as C05 through a recording Environment. Compared: status, tree, the events optimize performed, whether a foldable node is left, re-optimisation, node counts; '
          'the falsifier inspects the real result structurally (foldable nodes by the property\'s own definition) and checks purity of every recorded event against the registered functions',
@@ -116,6 +121,7 @@ PROPS = {
         dict(name='dcall', n=n(150, 5000), view='kind', oracle='none', laws=['c10_dcall']),
         dict(name='script', n=n(20000, 500000), view='script_chk', oracle='none', laws=['script_c10']),
         dict(name='chkvf', n=n(50000, 1500000), view='chk_exec', oracle='none', laws=['c10']),
+        dict(name='spine:chkvf', n=n(1500, 40000), view='chk_exec', oracle='none', laws=['c10']),
         dict(name='opt', n=n(30000, 1000000), view='opt_c10', oracle='none', laws=['c10_opt']),
         dict(name='env', n=n(20000, 500000), oracle='none', rust_oracle=True),
     ],
@@ -125,7 +131,8 @@ PROPS = {
  ),
  'C11': dict(
     modules=['SlacProps.C11'],
-    streams=[dict(name='chkbool', n=n(60000, 2000000), view='chkbool', oracle='none', laws=['c11'])],
+    streams=[dict(name='chkbool', n=n(60000, 2000000), view='chkbool', oracle='none', laws=['c11']),
+             dict(name='spine:chkbool', n=n(1500, 40000), view='chkbool', oracle='none', laws=['c11'])],
     rule='chkbool: random well-/ill-formed trees with conditionals in result position, executed under environments that leave about half of the variables undefined; '
          'compared: verdict with error payload, execute result, and the proviso (result-position variables/calls yield Booleans)',
     trusted=[FLOAT_TB],
@@ -157,6 +164,7 @@ PROPS = {
  'C08': dict(
     modules=['SlacProps.C08'],
     streams=[
+        dict(name='evaltable', n=n(0, 0), view='first', laws=['no_crash']),
         dict(name='evalill', n=n(30000, 1000000), view='first', laws=['no_crash']),
         dict(name='deep:eval', n=n(4000, 100000), view='first', laws=['no_crash']),
         dict(name='optill', n=n(20000, 500000), view='first', oracle='none', laws=['no_crash'], case_timeout=20.0),
@@ -165,6 +173,11 @@ PROPS = {
         dict(name='deep:chkbool', n=n(3000, 100000), view='first', oracle='none', laws=['no_crash']),
         dict(name='deep:json', n=n(3000, 100000), view='jsonclass', oracle='none', laws=['no_crash']),
         dict(name='deep:tcmp', n=n(3000, 100000), model=False, oracle='none', laws=['no_crash']),
+        dict(name='spine:eval', n=n(1000, 30000), view='first', oracle='none', laws=['no_crash'], case_timeout=20.0),
+        dict(name='spine:opt', n=n(1000, 30000), view='first', oracle='none', laws=['no_crash'], case_timeout=20.0),
+        dict(name='spine:chkvf', n=n(1000, 30000), view='first', oracle='none', laws=['no_crash'], case_timeout=20.0),
+        dict(name='spine:chkbool', n=n(1000, 30000), view='first', oracle='none', laws=['no_crash'], case_timeout=20.0),
+        dict(name='spine:json', n=n(1000, 30000), view='jsonclass', oracle='none', laws=['no_crash'], case_timeout=20.0),
     ],
     rule='ill-formed generator: all 17 operators in unary/binary/ternary position, empty and odd names, non-finite and array literals, wrong argument counts, registered and unregistered calls; '
          'deep:* = one spine nested 1..64 levels with small random siblings. Every case runs in a worker process; compared observation: ok / err / crash / timeout class only. non-trivial = tree has an operator/call/array node',
